@@ -32,6 +32,7 @@ var registry = map[string]checkFn{
 	"C12": runC12,
 	"C13": runC13,
 	"C14": runC14,
+	"C15": runC15,
 	"C16": runC16,
 	"C18": runC18,
 	"C19": runC19,
